@@ -182,6 +182,8 @@ structure Conn (σ : Type) where
   haveChunked : Bool := false
   chunkLeft : Nat := 0             -- current_chunk_size - current_chunk_offset
   inChunk : Bool := false          -- current_chunk_size ≠ 0
+  chunkTotal : Nat := 0            -- GHOST (not in the C struct, read by nothing): sum of the sizes of the chunks declared so
+                                   -- far for this request; lets upload completeness be stated for chunked framing
   reqKA : Bool := false
   expect100 : Bool := false
   cont100Sent : Bool := false
@@ -228,7 +230,7 @@ def cleanupConnection {σ} (c : Conn σ) : Out σ :=
 /-- request fields cleared by `memset (&c->rq, 0, …)` -/
 def clearRq {σ} (c : Conn σ) : Conn σ :=
   { c with clientAware := false, ctx := none, framing := .none, remaining := 0, haveChunked := false,
-           chunkLeft := 0, inChunk := false, reqKA := false, expect100 := false, cont100Sent := false, upOff := 0,
+           chunkLeft := 0, inChunk := false, chunkTotal := 0, reqKA := false, expect100 := false, cont100Sent := false, upOff := 0,
            somePayloadProcessed := false }
 
 /-- connection_reset -/
@@ -418,8 +420,8 @@ def processBody {σ} (cfg : Cfg) (app : App σ) (env : IdleEnv) : Nat → List T
   | n + 1, .chunkHdr k :: t, c =>
       if c.haveChunked ∧ ¬ c.inChunk then
         if k = 0 then ({ c with remaining := 0, buf := t }, [])
-        else if t.isEmpty then ({ c with inChunk := true, chunkLeft := k, buf := [] }, [])
-        else processBody cfg app env n t { c with inChunk := true, chunkLeft := k }
+        else if t.isEmpty then ({ c with inChunk := true, chunkLeft := k, chunkTotal := c.chunkTotal + k, buf := [] }, [])
+        else processBody cfg app env n t { c with inChunk := true, chunkLeft := k, chunkTotal := c.chunkTotal + k }
       else transmitError cfg env { c with buf := .chunkHdr k :: t }
   | _ + 1, tok :: t, c => transmitError cfg env { c with buf := tok :: t }
 
